@@ -90,6 +90,7 @@ def _walker_by_scenario(prog, rep, walker):
             if isinstance(t, ast.Call) and dotted(t.func) == "isinstance" and len(t.args) == 2 and src(t.args[0]) == subj:
                 ks = kinds_of(t.args[1])
                 hit = any(k2 in prog.classes and prog.is_subclass(k, k2) for k2 in ks)
+                state["tested"] = True
                 if hit:
                     state["arm"] = True
                 return hit
@@ -98,6 +99,11 @@ def _walker_by_scenario(prog, rep, walker):
             return None
 
         def on_stmt(st, state):
+            if isinstance(st, ast.AugAssign) and isinstance(st.op, ast.Add) and src(st.target) == W and isinstance(st.value, (ast.Tuple, ast.List)):
+                for it in st.value.elts:        # W += (node.left, node.right)
+                    for sl in slots:
+                        if src(it).startswith(f"{subj}.{sl}"):
+                            state["pushed"].add(sl)
             for c in ast.walk(st):
                 if not (isinstance(c, ast.Call) and isinstance(c.func, ast.Attribute)):
                     continue
@@ -122,6 +128,8 @@ def _walker_by_scenario(prog, rep, walker):
         for st_, term in paths:
             if term == "raise":
                 continue
+            if not st_.get("tested"):
+                continue        # left the loop body before looking at the node's kind (an "already visited" skip written any way)
             if k == "Variable":
                 if not st_["added"]:
                     ok, why = False, "Variable nodes are not added to the result"
@@ -130,12 +138,20 @@ def _walker_by_scenario(prog, rep, walker):
             elif not slots:
                 continue
             elif st_["pushed"] != set(slots):
-                if st_["arm"]:
+                if st_["arm"] and not st_["pushed"]:
+                    ok, why = None, "no child is seen to be scheduled in a form this rule reads"
+                elif st_["arm"]:
                     ok, why = False, f"pushes only {sorted(st_['pushed'])} of the children {sorted(slots)}: variables under the other child are dropped"
                 else:
                     ok, why = False, "unknown kinds are skipped: their variables are dropped"
+        if not any(st_.get("tested") for st_, t_ in paths if t_ != "raise"):
+            rep.undecided(f"{walker.name}[{k}]: no path of the loop body tests the node's kind in a form this rule reads")
+            continue
         if any(st_["arm"] for st_, _t in paths):
             handled_any.add(k)
+        if ok is None:
+            rep.undecided(f"{walker.name}[{k}]: {why}; coverage of the children not decided")
+            continue
         good = {"Variable": "adds the variable"}.get(k) or ("leaf without variables" if not slots else "delegates to the kind's own get_variables (R16.1) or pushes all children")
         rep.ob("R16.2", f"{walker.name}[{k}]", ok, good if ok else why, loc=walker.loc, detail="arm" if k in handled_any else "default-delegates", trivial=not slots and k != "Variable")
     rep.saw("walker kinds handled by an explicit arm", sorted(handled_any))
@@ -378,10 +394,15 @@ def _shortcut_by_scenario(prog, rep, sc, ds):
                     continue
                 why = None
                 handed = sorted({x for _f, _d, st_, _t in paths for e, x in st_["events"] if e == "handed"})
+                # locals of the loop that stand for an operand slot (`operand = current.vector`)
+                slot_names = {f"{subj}.{sl}" for sl in slots}
+                for a_st in ast.walk(loop):
+                    if isinstance(a_st, ast.Assign) and len(a_st.targets) == 1 and isinstance(a_st.targets[0], ast.Name) and src(a_st.value) in {f"{subj}.{sl}" for sl in slots}:
+                        slot_names.add(a_st.targets[0].id)
                 for c_ in ast.walk(loop):
                     # also inside tests: `if not tracker.admit(current.vector):`
                     if isinstance(c_, ast.Call) and (dotted(c_.func) or "") not in ("isinstance", "len", "id", "type", "hasattr") and not (isinstance(c_.func, ast.Attribute) and c_.func.attr in ("append", "extend")):
-                        if any(src(a_) in {f"{subj}.{sl}" for sl in slots} for a_ in list(c_.args) + [k_.value for k_ in c_.keywords]):
+                        if any(src(a_) in slot_names for a_ in list(c_.args) + [k_.value for k_ in c_.keywords]):
                             handed.append(src(c_.func))
                 if handed:
                     rep.undecided(f"{construct} ({desc}): the operand is handed to `{handed[0]}(..)`; how the source is recorded and compared there is not followed")
